@@ -2,9 +2,13 @@
    Model: Model/SCML.v (hand-written from scml.py; the whole loop is re-run on binary64 from the
    recorded basis and mini-batch indices and compared with the weights the implementation hands to
    its components builder: props/c15.py).  Basis generation (eigh, k-means, LDA) is an oracle whose
-   documented post-condition (n_basis unit-norm rows) is checked per run. *)
+   documented post-condition (n_basis unit-norm rows) is checked per run.
+   C15_source: the statements of one iteration of the loop of scml.py and of its checkpoint objective, as TRANSLATED on
+   this run (gen/Src_scml.v), compute the model's step and objective, so the loop of the source over any batch sequence is
+   the model's run and the theorems below hold for it; set-up, record update and post-loop statements pinned as text. *)
 From Coq Require Import List Reals.
-From ML Require Import Ops Vec VecR MatR LinAlg SCML C15Proof C15Best.
+From ML Require Import Ops Vec VecR MatR LinAlg NPNum SCML C15Proof C15Best C15Src.
+From MLgen Require Import Src_scml.
 Import ListNotations.
 Open Scope R_scope.
 
@@ -51,3 +55,23 @@ Print Assumptions C15_checkpoint.
 Example C15_checkpoint_nonvacuous :
   filter (fun k => Nat.eqb (Nat.modulo k 2) 0) (seq 1 3) = [2%nat].
 Proof. reflexivity. Qed.
+
+(* the translated source (gen/Src_scml.v): its loop over any recorded batch sequence is the model's run, hence keeps every
+   weight (current and best-checkpoint) non-negative, and its best record is the first minimum over the checkpoints *)
+Definition C15_source_stmt : Prop :=
+  (forall (p : paramsR) (D : Rm) nb batches iter (s : stateR),
+     @src_run ROps p D nb iter batches s = runR p D nb iter batches s) /\
+  (forall (p : paramsR) (D : Rm) nb iter idx (s : stateR),
+     let s' := @step ROps p D nb iter idx s in
+     @scml_step ROps (gamma p) (beta p) (delta p) (batch_size p) nb D iter idx (w s) (avg s) (ada s) = (w s', avg s', ada s')) /\
+  (forall (p : paramsR) (D : Rm) (wv : Rv), @scml_objective ROps (beta p) (length D) D wv = objectiveR p D wv) /\
+  (forall (p : paramsR) (D : Rm) nb batches, 0 < gamma p -> 0 < delta p ->
+     state_ok (@src_run ROps p D nb 0 batches (@init ROps nb))).
+
+Theorem C15_source : C15_source_stmt.
+Proof.
+  split; [exact src_run_eq|]. split; [exact scml_step_eq|]. split; [exact scml_objective_eq|].
+  intros p D nb batches Hg Hd. rewrite src_run_eq. apply scml_run_nonneg; auto. apply init_ok.
+Qed.
+Print Assumptions C15_source.
+Definition C15_source_skeleton := scml_skeleton_ok.
